@@ -207,7 +207,8 @@ PROPS = {
 PROPS["C20"] = dict(
     lean_targets=["BB.Props.C20"],
     theorems=["BB.Props.C20.inv_step", "BB.Props.C20.first_immediately", "BB.Props.C20.at_most_count", "BB.Props.C20.at_most_one_after_cancel",
-              "BB.Props.C20.closed_iff_goroutine_gone", "BB.Props.C20.cancelled_goroutine_not_stuck"],
+              "BB.Props.C20.closed_iff_goroutine_gone", "BB.Props.C20.cancelled_goroutine_not_stuck",
+              "BB.Props.C20.cancelled_leadsTo_closed", "BB.Props.C20.closed_promptly_after_cancel", "BB.Props.C20.demoRun_fair"],
     corr=[dict(family="attempt", quick=150, thorough=6000, mismatch_is_violation=True, no_shrink=True,
                nontrivial=has("slow_consumer_tick_dropped", "cancel_between_recheck_and_send", "sent_after_cancel", "exit_by_recheck",
                               "exit_by_ctxdone", "pre_cancelled", "count_reached", "recv_after_cancel"),
@@ -217,7 +218,8 @@ PROPS["C20"] = dict(
                     "timestamps non-decreasing, nothing received that was not sent, a re-check that began after cancel() returned must fail, channel closed exactly when "
                     "the goroutine exits; non-trivial = a dropped tick (slow consumer), cancellation between re-check and send, exit through either branch, pre-cancelled")],
     assumptions=["time.Ticker is a fair environment (ticks as environment events); real-time rates are not modelled"],
-    open_statements=["always_closed as a leadsTo theorem (proved: no stuck state after cancellation and closed <-> goroutine gone)"],
+    open_statements=["'closed after the count-th value' needs the receiver to keep receiving (a second fairness class): proved as at_most_count + closed_iff_goroutine_gone; "
+                     "'closed promptly after cancellation' is a leads-to theorem under weak fairness of the goroutine alone (closed_promptly_after_cancel)"],
 )
 
 def c11_race_search(cx):
